@@ -64,6 +64,7 @@ fn main() {
         "probe-det" => probe::det(),
         "probe-chars" => probe::chars(),
         "probe-times" => probe::times_only(),
+        "probe-root" => probe::root_rename(),
         "C10" => c10::run(&args),
         "C11" => c11::run(&args),
         "C19" => c19::run(&args),
